@@ -4,7 +4,7 @@
    Values are int64: equalities are modulo 2^64 (wrap64), exactly what Go's += computes. *)
 From Coq Require Import List NArith ZArith Bool.
 From Coq Require Import Permutation.
-From Qryn Require Import model.Pprof model.ProfTree model.ProfDiff model.ProfSql proofs.PprofProofs proofs.ProfTreeProofs proofs.ProfSqlProofs proofs.ProfDiffProofs proofs.ProfNestProofs.
+From Qryn Require Import model.Pprof model.ProfTree model.ProfDiff model.ProfSql proofs.PprofProofs proofs.ProfTreeProofs proofs.ProfSqlProofs proofs.ProfDiffProofs proofs.ProfNestProofs model.ProfMerge proofs.ProfMergeProofs.
 Import ListNotations.
 Open Scope Z_scope.
 
@@ -272,6 +272,16 @@ Theorem diff_ticks_are_sums : forall (limit : Z) (lrows rrows : list row) (lfs r
   o_total o = wrap64 (rchild_tot lrows 0%N + rchild_tot rrows 0%N).
 Proof. exact ProfDiffProofs.diff_ticks_are_sums. Qed.
 Print Assumptions diff_ticks_are_sums.
+
+(* The pprof payload merge (ProfService.MergeProfiles, profMerge_v2; coq/model/ProfMerge.v).  The merged profile conserves
+   weight for ANY comparison of sample keys (so also under a collision of GetSampleKey: weight then moves to another
+   sample, it is not lost), any number of profiles in any order whose samples carry n values each, every sample type
+   k < n: the values of the merged samples add up to the values of all input samples (modulo 2^64). *)
+Theorem merged_profile_conserves : forall (eqb : list Z -> list Z -> bool) (n k : nat) (ps : list (list msample)),
+  (k < n)%nat -> Forall (wf n) ps ->
+  eqm (col_sum k (merge_samples eqb ps)) (sumZ (map (col_sum k) ps)).
+Proof. exact ProfMergeProofs.merged_profile_conserves. Qed.
+Print Assumptions merged_profile_conserves.
 
 (* ------------------------------------------------------------------------------------------------
    levels_nest.  For a tree with non-negative self and total values and exact conservation under every
